@@ -415,9 +415,10 @@ std::string gen_string(sim::Rng& r, const GenOpts& o) {
     len = (size_t)L[r.below(sizeof(L) / sizeof(L[0]))];
   } else len = (size_t)r.below((uint64_t)o.max_str + 1);
   std::string s;
-  unsigned mode = (unsigned)r.below(6);
+  unsigned mode = (unsigned)r.below(7);
   for (size_t i = 0; i < len; i++) {
     unsigned char c;
+    if (o.wild_strings && mode == 6) { static const unsigned char six[] = {0, 1, 2, 3, 4, 5, 6, 7, 0x0b, 0x0e, 0x0f, 0x10, 0x11, 0x15, 0x1a, 0x1b, 0x1e, 0x1f}; c = six[r.below(sizeof six)]; s += (char)c; continue; }  // every byte expands 6x
     if (!o.wild_strings || mode < 2) c = (unsigned char)('a' + r.below(26));
     else if (mode == 2) { static const char sp[] = "\"\\/\b\f\n\r\t {}[]:,\x01\x1f\x7f"; c = (unsigned char)sp[r.below(sizeof(sp) - 1)]; }
     else if (mode == 3) c = (unsigned char)r.below(256);
